@@ -124,7 +124,7 @@ CHECKS["C11"] = dict(
     engine="XH",
     technique="symbolic execution (CrossHair + z3) of the real annotate command body and add_header_to_file over a file-system model with header construction as a symbolic fault point",
     text="For two paths with symbolic type (recognised / unrecognised / uncommentable / binary / binary content under a recognised name), symbolic pre-existing .license sibling, symbolic outcome of header construction per path (ok, CommentCreateError, MissingReuseInfoError), --skip-existing, --no-replace, each style option and line-handling option, CrossHair confirms over all paths that a failing path and its .license sibling are unchanged (none created), every other path is processed, the exit status is 1 iff some path failed, a usage error (unrecognised type without an option; a forced --style that lacks the requested --single-line/--multi-line form) leaves the model untouched, and no exception other than the documented ones escapes the command.",
-    note="Stubs: Path/open model, is_binary by extension, header builder replaced by the fault point, click's option parser. Known finding (replayed through the real CLI on a temporary project each run): the .license sibling is touch()ed before the header is built and is left behind when building fails.",
+    note="Stubs: Path/open model, is_binary by extension, header builder replaced by the fault point, click's option parser. The defect this check found (the .license sibling touch()ed before the header is built stayed behind on failure) is repaired in /repo (fix: commit); the real-CLI replay of its witness is kept as a regression obligation.",
 )
 
 CHECKS["C19"] = dict(
